@@ -199,3 +199,16 @@ _m("C13",
    "different initial-value kinds.",
    _COMMON + ["documents stay inside the documented subset (no events, function definitions, initial assignments, "
               "boundary species); rate rules target species only"])
+
+_m("C12",
+   "Hypothesis builds models over every propensity type (numeric and named parameters), orders 0..4, delayed "
+   "reactants / products with fixed / Gaussian / Gamma delays, general rates over + - * / ^ exp log abs min max "
+   "Heaviside t volume, and 0..3 additive / assignment rules with frequencies repeated / start / dt / a time; the model "
+   "is written twice (texts must be identical up to the generated model id) in the deterministic or stochastic flavour, "
+   "read back with Model(sbml_filename=...), and compared with the original by behaviour (vf/modelcmp.py): species and "
+   "initial values, parameter values, immediate and delayed stoichiometry, each rate in deterministic / volume / "
+   "stochastic / stochastic-volume form at 3..6 states and two times, delay classes and ten seeded delay draws, rule "
+   "count and frequencies, and the effect of the rule lists at times 0, 1.5 and the scheduled times with rule_step 0 "
+   "and 1.  Non-trivial: a non-mass-action or order >= 3 reaction together with a delay or a rule.",
+   _COMMON + ["names are alphanumeric SBML identifiers without leading underscore (documented export convention)",
+              "an additive rule returning as an equivalent assignment rule is accepted (behavioural comparison)"])
